@@ -18,6 +18,9 @@ func init() {
 			c15R2(c, "C15.R2")
 			c15R3(c, "C15.R3")
 			c15R4(c, "C15.R4")
+			ruleTestedErrorsPropagate(c, "C15.R6", []string{rootPkg, cmdPath}, 8, func(n string) bool {
+				return strings.Contains(n, "bbolt.Compact") || strings.Contains(n, "bbolt.walk") || strings.Contains(n, "compactOptions")
+			}) // a compaction step that failed is not reported as success
 			ruleInlineNoNested(c, "C15.R5") // the destination is built by many small transactions that touch a parent without opening its sub-buckets
 		},
 	})
